@@ -34,8 +34,12 @@ type bodyIn struct {
 	Gzip     bool        `json:"gzip"`    // proxy.gzip.contenttype configured (^text/): the gzip handler sits in the chain
 	AE       string      `json:"ae"`      // the client's Accept-Encoding ("" = none)
 	CType    string      `json:"ctype"`   // the request's Content-Type ("" = application/octet-stream)
-	RCE      string      `json:"rce"`     // the Content-Encoding the upstream declares for its reply ("" = none): already encoded content
+	RCE      []string    `json:"rce"`     // the Content-Encoding lines the upstream puts on its reply (none = not encoded): already encoded content
 	Cfg      pcfg        `json:"cfg"`     // proxy configuration beside the route: must not matter
+	// trailer fields of the reply (end-to-end header fields that travel behind the body; the reply then goes out
+	// chunked). Request trailers are not generated: httputil.ReverseProxy itself forwards their names without the
+	// values (Request.Clone copies the Trailer map before the body has been read), see design/C07.md.
+	RTrailer [][2]string `json:"rtrailer"`
 }
 
 type bodyOut struct {
@@ -58,6 +62,8 @@ type bodyOut struct {
 	GotInterim  []interimOut `json:"got_interim"`
 	// when the reply arrived with "Content-Encoding: gzip" and is a gzip stream: what it decodes to. Whether that
 	// coding is fabio's own (to be undone before comparing) or the upstream's (to be left alone) is decided in Lean.
+	RepTrailer  []kv `json:"rep_trailer"`  // trailer fields the upstream sent
+	GotTrailer  []kv `json:"got_trailer"`  // … the client received
 	DecOK  bool   `json:"dec_ok"`
 	DecLen int    `json:"dec_len"`
 	DecSHA string `json:"dec_sha"`
@@ -87,6 +93,13 @@ func groupHdr(hs [][2]string) []kv {
 	}
 	sortKV(want)
 	return want
+}
+
+func orEmpty(h []kv) []kv {
+	if h == nil {
+		return []kv{}
+	}
+	return h
 }
 
 func seeded(seed uint64, n int) []byte {
@@ -175,10 +188,15 @@ func runBody(raw json.RawMessage) (interface{}, error) {
 	if in.CType != "" && !validValue(in.CType) {
 		return nil, errors.New("content-type cannot be sent")
 	}
-	if in.RCE != "" && (!validValue(in.RCE) || strings.ContainsAny(in.RCE, "\r\n")) {
-		return nil, errors.New("content-encoding cannot be sent")
+	if len(in.RCE) > 3 {
+		return nil, errors.New("too many content-encoding lines")
 	}
-	if strings.EqualFold(in.RCE, "gzip") && in.AE == "" {
+	for _, ce := range in.RCE {
+		if !validValue(ce) || strings.ContainsAny(ce, "\r\n") {
+			return nil, errors.New("content-encoding cannot be sent")
+		}
+	}
+	if len(in.RCE) > 0 && strings.EqualFold(in.RCE[0], "gzip") && in.AE == "" {
 		// Go's transport asks for gzip on its own hop when the client named no coding and then decodes the reply
 		// itself: the upstream's (seeded, not really gzip) body would not survive that. Kept out (assumption).
 		return nil, errors.New("gzip-labelled reply to a client that named no coding")
@@ -186,8 +204,20 @@ func runBody(raw json.RawMessage) (interface{}, error) {
 	if err := in.Cfg.check(); err != nil {
 		return nil, err
 	}
-	if in.RCE != "" {
-		rh = append(rh, [2]string{"Content-Encoding", in.RCE})
+	for _, tr := range in.RTrailer {
+		// net/http refuses framing and routing fields as trailers; the harness keeps to application fields
+		if !validToken(tr[0]) || !validValue(tr[1]) || !strings.HasPrefix(strings.ToLower(tr[0]), "x-") {
+			return nil, errors.New("trailer field cannot be sent")
+		}
+	}
+	if len(in.RTrailer) > 3 {
+		return nil, errors.New("too many trailer fields")
+	}
+	if len(in.RTrailer) > 0 && noBody(in.Method, in.RStatus) {
+		return nil, errors.New("no trailers on a reply without body")
+	}
+	for _, ce := range in.RCE {
+		rh = append(rh, [2]string{"Content-Encoding", ce})
 	}
 	body := seeded(in.ReqSeed, in.ReqLen)
 	rbody := seeded(in.RSeed, in.RLen)
@@ -232,7 +262,7 @@ func runBody(raw json.RawMessage) (interface{}, error) {
 	if in.Strip {
 		cmd += ` opts "strip=/b prepend=/q host=dst"`
 	}
-	rep := &upReply{Interim: in.Interim, Status: in.RStatus, Hdr: rh, Body: rbody, Flush: in.RChunked, NoWrite: noBody(in.Method, in.RStatus)}
+	rep := &upReply{Interim: in.Interim, Status: in.RStatus, Hdr: rh, Body: rbody, Flush: in.RChunked, NoWrite: noBody(in.Method, in.RStatus), Trailer: in.RTrailer}
 	cfg := config.Proxy{}
 	if in.Gzip {
 		cfg.GZIPContentTypes = gzipTypes
@@ -258,7 +288,8 @@ func runBody(raw json.RawMessage) (interface{}, error) {
 	wantHdr := e2e(groupHdr(rh))
 	out := bodyOut{Hits: hits, SentLen: len(body), SentSHA: sha(body), Status: resp.Status, RepLen: len(rbody), RepSHA: sha(rbody),
 		GotLen: len(got), GotSHA: sha(got), GotHdr: gotHdr, RepHdr: wantHdr,
-		SentInterim: []interimOut{}, GotInterim: []interimOut{}}
+		SentInterim: []interimOut{}, GotInterim: []interimOut{},
+		RepTrailer: orEmpty(groupHdr(in.RTrailer)), GotTrailer: orEmpty(resp.Trailer)}
 	for _, x := range resp.Hdr {
 		if x.K == "Content-Encoding" && len(x.V) == 1 && x.V[0] == "gzip" && len(got) > 0 {
 			if zr, err := gzip.NewReader(bytes.NewReader(got)); err == nil {
@@ -316,11 +347,17 @@ func init() {
 			bodyIn{Method: "GET", RStatus: 400, RLen: 2000, Interim: []interim{{Code: 103, Hdr: [][2]string{{"Link", "</style.css>; rel=preload; as=style"}}}}, Gzip: true, RHdr: [][2]string{{"Content-Type", "text/plain"}}},
 			bodyIn{Method: "GET", RStatus: 404, RLen: 2000, Gzip: true, AE: "gzip", RHdr: [][2]string{{"Content-Type", "text/html"}}},
 			// content the upstream encoded itself goes through as it is, gzip handler or not
-			bodyIn{Method: "GET", RStatus: 200, RLen: 300, Gzip: true, AE: "gzip, br", RCE: "br", RHdr: [][2]string{{"Content-Type", "text/plain"}}},
-			bodyIn{Method: "GET", RStatus: 200, RLen: 300, Gzip: true, AE: "gzip, deflate", RCE: "deflate", RHdr: [][2]string{{"Content-Type", "text/html; charset=utf-8"}}},
-			bodyIn{Method: "GET", RStatus: 200, RLen: 300, Gzip: true, AE: "gzip", RCE: "identity", RHdr: [][2]string{{"Content-Type", "text/plain"}}},
-			bodyIn{Method: "GET", RStatus: 200, RLen: 300, Gzip: true, AE: "gzip", RCE: "gzip", RHdr: [][2]string{{"Content-Type", "text/plain"}}},
-			bodyIn{Method: "GET", RStatus: 200, RLen: 300, AE: "br", RCE: "br"},
+			bodyIn{Method: "GET", RStatus: 200, RLen: 300, Gzip: true, AE: "gzip, br", RCE: []string{"br"}, RHdr: [][2]string{{"Content-Type", "text/plain"}}},
+			bodyIn{Method: "GET", RStatus: 200, RLen: 300, Gzip: true, AE: "gzip, deflate", RCE: []string{"deflate"}, RHdr: [][2]string{{"Content-Type", "text/html; charset=utf-8"}}},
+			bodyIn{Method: "GET", RStatus: 200, RLen: 300, Gzip: true, AE: "gzip", RCE: []string{"identity"}, RHdr: [][2]string{{"Content-Type", "text/plain"}}},
+			bodyIn{Method: "GET", RStatus: 200, RLen: 300, Gzip: true, AE: "gzip", RCE: []string{"gzip"}, RHdr: [][2]string{{"Content-Type", "text/plain"}}},
+			bodyIn{Method: "GET", RStatus: 200, RLen: 300, AE: "br", RCE: []string{"br"}},
+			bodyIn{Method: "GET", RStatus: 200, RLen: 300, Gzip: true, AE: "gzip, br", RCE: []string{"deflate", "br"}, RHdr: [][2]string{{"Content-Type", "text/plain"}}},
+			// recorded finding (content-encoding-first-line-empty): the gzip layer looks at the first Content-Encoding line only
+			bodyIn{Method: "GET", RStatus: 200, RLen: 300, Gzip: true, AE: "gzip, br", RCE: []string{"", "br"}, RHdr: [][2]string{{"Content-Type", "text/plain"}}},
+			// trailer fields of the reply, with and without the gzip layer
+			bodyIn{Method: "POST", ReqLen: 10, ReqSeed: 6, Chunks: []int{4}, RStatus: 200, RLen: 300, RTrailer: [][2]string{{"X-T", "1"}, {"X-T", "2"}}},
+			bodyIn{Method: "GET", RStatus: 200, RLen: 300, RChunked: true, RTrailer: [][2]string{{"X-T", "1"}}, Gzip: true, AE: "gzip", RHdr: [][2]string{{"Content-Type", "text/plain"}}},
 			// a form body with every optional stage of ServeHTTP switched on
 			bodyIn{Method: "POST", ReqLen: 40, ReqSeed: 3, CType: "application/x-www-form-urlencoded", RStatus: 200, RLen: 2,
 				Cfg: pcfg{Span: "{{.Method}} {{.Path}}", ReqID: "X-Request-Id", Log: true, Stats: true, Flush: 5}},
@@ -329,7 +366,7 @@ func init() {
 			bodyIn{Method: "PUT", ReqLen: 70000, Chunks: []int{4096}, RStatus: 500, RLen: 70000, RChunked: true, Expect: true, Interim: []interim{{Code: 103, Hdr: [][2]string{{"Link", "</style.css>; rel=preload; as=style"}}}}},
 		},
 		Gen: func(r *hx.Rand, i int) interface{} {
-			in := bodyIn{Method: r.Pick(methods), ReqSeed: r.U64() % 1000, RSeed: r.U64() % 1000, RHdr: [][2]string{}, Chunks: []int{}}
+			in := bodyIn{Method: r.Pick(methods), ReqSeed: r.U64() % 1000, RSeed: r.U64() % 1000, RHdr: [][2]string{}, Chunks: []int{}, RCE: []string{}}
 			pick := func() int {
 				if r.Chance(2, 3) {
 					return r.Intn(300)
@@ -376,8 +413,11 @@ func init() {
 			}
 			// content the upstream has already encoded: whatever the proxy is configured to do, it is not fabio's to touch
 			if r.Chance(1, 4) {
-				in.RCE = r.Pick(codings)
-				if strings.EqualFold(in.RCE, "gzip") && in.AE == "" {
+				in.RCE = []string{r.Pick(codings)}
+				if r.Chance(1, 8) {
+					in.RCE = append(in.RCE, r.Pick(codings)) // two codings, one per line
+				}
+				if strings.EqualFold(in.RCE[0], "gzip") && in.AE == "" {
 					in.AE = "gzip"
 				}
 				if r.Chance(1, 2) {
@@ -388,6 +428,14 @@ func init() {
 				in.CType = r.Pick(ctypes)
 			}
 			in.Cfg = genCfg(r)
+			in.RTrailer = [][2]string{}
+			tn := []string{"X-T", "X-Checksum", "x-t"}
+			tv := []string{"1", "sha256=abc", "", "a, b"}
+			if !noBody(in.Method, in.RStatus) && r.Chance(1, 5) {
+				for k := r.Range(1, 2); k > 0; k-- {
+					in.RTrailer = append(in.RTrailer, [2]string{r.Pick(tn), r.Pick(tv)})
+				}
+			}
 			return in
 		},
 		Run: runBody,
